@@ -3,7 +3,7 @@
 #include "vh.hpp"
 namespace vh {
 
-enum Kind { KLeft, KRight, KStride, KLpad, KRpad, KUser, KRev, KBc };
+enum Kind { KLeft, KRight, KStride, KLpad, KRpad, KUser, KRev, KBc, KShift };
 
 template <Kind K, class E, size_t SP> struct MapOf;
 template <class E, size_t SP> struct MapOf<KLeft, E, SP> { using type = md::layout_left::mapping<E>; };
@@ -52,9 +52,11 @@ template <class M> std::string mapOps(const M& m, const Op& o) {
   }
   if (op == "ext") return "ok " + extList(m.extents());
   if (op == "cvs") {      // the same mapping converted to another extents type of the same layout (all-dynamic, long): its strides
-    using M2 = typename M::layout_type::template mapping<md::dextents<long, R>>;
+    // the widest index type of the same signedness: every value of the source is representable in the target
+    using W = std::conditional_t<std::is_signed_v<I>, long, unsigned long>;
+    using M2 = typename M::layout_type::template mapping<md::dextents<W, R>>;
     if constexpr (std::is_constructible_v<M2, const M&>) {
-      M2 m2(m); std::array<long, R> s{}; if constexpr (R > 0) for (size_t r = 0; r < R; r++) s[r] = m2.stride(r);
+      M2 m2(m); std::array<W, R> s{}; if constexpr (R > 0) for (size_t r = 0; r < R; r++) s[r] = m2.stride(r);
       return "ok " + list(s);
     } else return "no-op";
   }
